@@ -27,7 +27,19 @@ type workCase struct {
 	// being picked up). Honoured only when n >= number of reachable items and every listed item is an initial item or a
 	// successor of i (then a correct Work always has an idle runner for an unstarted item, so the wait ends).
 	WaitFor [][]int `json:"wait_for,omitempty"`
-	Mode    string  `json:"mode"` // seq | pct
+	// Redo[i] = m > 0: while processing item i, f calls Do(m, ...) on the same Work once more (a misuse the package
+	// refuses with a panic, recovered here): the refused call must leave the run that is in progress alone.
+	Redo []int `json:"redo,omitempty"`
+	// PanicItem = i+1 > 0: f panics when it is called for item i (a leaf) on the goroutine that called Do, and the caller
+	// recovers from the panic of Do. The runners Do started are not affected by that: between them they still call f
+	// exactly once for every other item (they then wait for a runner that will never come back, which is the unchanged
+	// package's way of ending such a run and is accepted).
+	PanicItem int `json:"panic_item,omitempty"`
+	// Others: this Work is not the only one of the process: before it, another Work with two items is run to the end with
+	// two runners; next to it a third Work gets two items of its own before Do and is run after it. Each Work must see
+	// exactly its own items.
+	Others bool   `json:"others,omitempty"`
+	Mode   string `json:"mode"` // seq | pct
 	// Items optionally gives the value used for item i: "" or "int" = the int i, "nil" = a nil item,
 	// "string" = a string, "struct" = a comparable struct (all valid map keys).
 	Items   []string `json:"items,omitempty"`
@@ -62,6 +74,9 @@ func valid(c workCase) bool {
 		}
 	}
 	if nils > 1 || len(c.Items) > len(c.Succ) {
+		return false
+	}
+	if c.PanicItem != 0 && (c.PanicItem < 1 || c.PanicItem > len(c.Succ) || len(c.Succ[c.PanicItem-1]) != 0 || c.N < 2) {
 		return false
 	}
 	for i, k := range c.Items {
@@ -170,7 +185,15 @@ func run(c workCase, strat sched.Strategy, trace bool) outcome {
 		walk(i)
 	}
 	var startWaiters []*sched.Task
-	waitsOK := c.N >= len(closure)
+	// calls that wait hold a runner each; everything they wait for has been queued before they start waiting, so as long
+	// as one runner is left over a correct Work gets it started
+	nWaiting := 0
+	for i, ws := range c.WaitFor {
+		if len(ws) > 0 && closure[i] {
+			nWaiting++
+		}
+	}
+	waitsOK := c.N >= len(closure) || c.N > nWaiting
 	for i, ws := range c.WaitFor {
 		for _, j := range ws {
 			ok := i < len(c.Succ) && j >= 0 && j < len(c.Succ) && j != i
@@ -188,10 +211,40 @@ func run(c workCase, strat sched.Strategy, trace bool) outcome {
 			}
 		}
 	}
+	mainPanicked := false
 	res := sched.Run(strat, sched.Options{MaxSteps: 20000, KeepTrace: trace}, func() {
-		var w par.Work
-		for _, i := range c.Initial {
+		mainTask := sched.Cur()
+		defer func() {
+			if r := recover(); r != nil {
+				if r != "planned failure of f" {
+					panic(r)
+				}
+				mainPanicked = true
+			}
+		}()
+		var w, side par.Work
+		sideSeen := map[int]int{}
+		if c.Others {
+			var first par.Work
+			first.Add(-101)
+			first.Add(-102)
+			first.Do(2, func(x any) {
+				if v, ok := x.(int); !ok || (v != -101 && v != -102) {
+					if bad == nil {
+						bad = vt.Failf("foreign-item", "a Work that was given the items -101 and -102 called f with %#v", x)
+					}
+				}
+			})
+		}
+		for k, i := range c.Initial {
+			if c.Others && k == 1 {
+				side.Add(-201)
+			}
 			w.Add(itemVal(c, i))
+		}
+		if c.Others {
+			side.Add(-202)
+			side.Add(-201) // (a duplicate: ignored)
 		}
 		w.Do(c.N, func(x any) {
 			i := itemIndex(c, x)
@@ -209,6 +262,9 @@ func run(c workCase, strat sched.Strategy, trace bool) outcome {
 				sched.Wake(t)
 			}
 			startWaiters = nil
+			if c.PanicItem == i+1 && sched.Cur() == mainTask {
+				panic("planned failure of f")
+			}
 			inflight++
 			if inflight > maxInflight {
 				maxInflight = inflight
@@ -222,6 +278,20 @@ func run(c workCase, strat sched.Strategy, trace bool) outcome {
 				w.Add(itemVal(c, s))
 				if waiting > 0 && fresh {
 					wokenByAdd = true
+				}
+			}
+			if i < len(c.Redo) && c.Redo[i] > 0 && c.Redo[i] <= 12 {
+				refused := false
+				func() {
+					defer func() {
+						if recover() != nil {
+							refused = true
+						}
+					}()
+					w.Do(c.Redo[i], func(any) {})
+				}()
+				if !refused && bad == nil {
+					bad = vt.Failf("second-do-not-refused", "a second Do(%d) on a Work whose Do is running returned instead of being refused", c.Redo[i])
 				}
 			}
 			if i < len(c.After) {
@@ -240,6 +310,15 @@ func run(c workCase, strat sched.Strategy, trace bool) outcome {
 			inflight--
 		})
 		doReturned = true
+		if c.Others {
+			side.Do(1, func(x any) {
+				v, _ := x.(int)
+				sideSeen[v]++
+			})
+			if (len(sideSeen) != 2 || sideSeen[-201] != 1 || sideSeen[-202] != 1) && bad == nil {
+				bad = vt.Failf("foreign-item", "a second Work that was given the items -201 and -202 before the first one ran called f for %v", sideSeen)
+			}
+		}
 		if inflight != 0 && bad == nil {
 			bad = vt.Failf("do-returned-early", "Do returned with %d calls of f still in progress", inflight)
 		}
@@ -262,6 +341,23 @@ func run(c workCase, strat sched.Strategy, trace bool) outcome {
 			tr = append([]string{fmt.Sprintf("... %d earlier steps ...", len(tr)-80)}, tr[len(tr)-80:]...)
 		}
 		ctx = fmt.Sprintf("\ntrace: %v", tr)
+	}
+	if mainPanicked && !res.Stuck && len(res.Panics) == 0 && !res.Overrun {
+		// f failed on the caller's goroutine: what counts is that the other runners got through everything else
+		var missing []int
+		for i := range closure {
+			if count[i] != 1 {
+				missing = append(missing, i)
+			}
+		}
+		sort.Ints(missing)
+		if bad != nil {
+			bad.Msg += ctx
+			o.fail = bad
+		} else if len(missing) > 0 {
+			o.fail = vt.Failf("items-not-run-after-panic-of-f", "f panicked for item %d on the goroutine that called Do (recovered there); the %d runners Do had started should still have called f once for every other item, but items %v ran %v times; blocked tasks: %v%s", c.PanicItem-1, c.N-1, missing, counts(count, missing), res.Blocked, ctx)
+		}
+		return o
 	}
 	switch {
 	case res.Stuck:
@@ -355,6 +451,22 @@ func genGraph(t *rapid.T, c *workCase) {
 			c.WaitFor = append(c.WaitFor, ws)
 		}
 	}
+	if rapid.IntRange(0, 7).Draw(t, "panics") == 5 && c.N >= 2 {
+		var leaves []int
+		for i := 0; i < items; i++ {
+			if len(c.Succ[i]) == 0 {
+				leaves = append(leaves, i)
+			}
+		}
+		if len(leaves) > 0 {
+			c.PanicItem = 1 + rapid.SampledFrom(leaves).Draw(t, "panicitem")
+		}
+	}
+	c.Others = rapid.IntRange(0, 5).Draw(t, "others") == 4
+	if rapid.IntRange(0, 7).Draw(t, "redo") == 3 {
+		c.Redo = make([]int, items)
+		c.Redo[rapid.IntRange(0, items-1).Draw(t, "redoat")] = rapid.IntRange(1, 6).Draw(t, "redon")
+	}
 	if rapid.IntRange(0, 2).Draw(t, "typed") == 0 {
 		nilAt := -1
 		if rapid.Bool().Draw(t, "hasnil") {
@@ -431,6 +543,8 @@ type exCase struct {
 var smallGraphs = []workCase{
 	{Initial: nil, Succ: [][]int{{}}}, // nothing added before Do
 	{Initial: []int{0, 1}, Succ: [][]int{{2}, {}, {}}, Items: []string{"int", "nan", "nan"}},    // items that are not equal to themselves
+	{Initial: []int{0, 1}, Succ: [][]int{{2}, {}, {}}, Others: true},                            // not the only Work of the process
+	{Initial: []int{0, 1}, Succ: [][]int{{2}, {}, {}}, Redo: []int{1, 0, 5}},                    // a refused second Do from inside f, with fewer and with more runners
 	{Initial: []int{0}, Succ: [][]int{{}}},                                                      // single item
 	{Initial: []int{0}, Succ: [][]int{{1}, {}}},                                                 // chain of 2
 	{Initial: []int{0}, Succ: [][]int{{1}, {2}, {}}},                                            // chain of 3
@@ -442,6 +556,7 @@ var smallGraphs = []workCase{
 	{Initial: []int{0}, Succ: [][]int{{1}, {}}, Items: []string{"nil", "string"}},               // a nil item first
 	{Initial: []int{0}, Succ: [][]int{{1, 2}, {}, {}}, Items: []string{"struct", "nil", "int"}}, // a nil item added from inside f
 	{Initial: []int{0}, Succ: [][]int{{1, 2}, {}, {}}, WaitFor: [][]int{{1, 2}, {2}, {1}}},      // f(0) adds two items in a burst; all three calls rendezvous (n=3 only)
+	{Initial: []int{0}, Succ: [][]int{{1}, {2}, {}}, WaitFor: [][]int{nil, {2}, nil}},           // a chain whose middle call waits for the last item to start (n=2: the runner that finished the first item must be woken for it)
 	{Initial: []int{0, 1, 2}, Succ: [][]int{{3}, {4}, {}, {}, {}}},                              // as many queued items as runners, the first calls add more
 	{Initial: []int{0, 1, 2, 3}, Succ: [][]int{{4}, {}, {}, {}, {}}},                            // more queued items than runners
 }
